@@ -4,7 +4,7 @@ typing (rotation, scaling, permutation and the learners that are invariant
 only through algebraic cancellations are NOT decided)."""
 from ..model import FuncInfo
 from ..engine import Engine, V
-from ..eqv import EqvDomain
+from ..eqv import StickyEqvDomain as EqvDomain
 from .common import site
 
 TRANSLATION = ['Covariance', 'ITML', 'ITML_Supervised', 'MMC',
